@@ -20,11 +20,14 @@ SPEC = dict(
     technique='weakest-precondition VCs from the real AST of chem_mass and _split_chem_formula against sidecar contracts (finite-sum spec '
               'function, loop variants, string VCs; ground table facts checked on the real table), discharged by z3 / cvc5; bounded run-time '
               'contract check (round trip, additivity, linearity) as labelled stand-in for the regex tokenizers',
-    contracts=['chemmass'],
+    contracts=['chemmass', 'glycanmass'],
     bounded=[dict(name='C15-bounded', script='bounded/C15.py')],
     replay_finder='bounded/C15.py',
     explanation='mass of a composition and the bracket tokenizer proved; round trip bounded',
-    proved_clauses=['the mass of a composition is the sum of count x atomic mass over its entries (both modes, isotope entries, particles)',
+    proved_clauses=['glycan_mass of a dictionary of monosaccharide counts == the count-weighted sum of the tabulated masses of the monosaccharides the keys '
+                    'denote (by name first, then by synonym), in the requested mode, rounded on request; an unknown key raises the glycan formula error '
+                    '(contracts/glycanmass.py; the table enters abstractly, "every entry has both masses" is a precondition)',
+                    'the mass of a composition is the sum of count x atomic mass over its entries (both modes, isotope entries, particles)',
                     'bracketed isotope components are kept whole and distinct; the tokenizer terminates on every text'],
     bounded_clauses=['write/parse round trip incl. mass', 'additivity, accumulation, zero counts', 'glycan composition / mass linear; synonyms'],
     uncovered_clauses=['glycan write/parse round trip for multi-name formulas (ambiguity of the written form not decided)'],
